@@ -47,6 +47,14 @@ CHECKS = {
             "bounded-exhaustive twin solves (two fresh objects with different heap history, and a re-solve after clearBasis) compared through a bit-exact digest; exhaustive copy/assign at every prefix point of short histories followed by every probe operation on either side",
             "(a) every stride-th canonical LP of Q x every configuration with <=1 deviation in floating point (and a subset exactly): two fresh objects and the first object again after clearBasis must give identical status, iteration count, basis and bit-identical vectors (text digest with %a floats; thorough: under two heap fills). (b) at every prefix point of histories over 8 initial states (empty, loaded, solved with/without presolve, basis set, rational LP present, exactly solved, persistently scaled) x reduced modification alphabet: copy construction and assignment into a previously used object; the digest (all accessors, all 82 parameters, the tolerance object, basis, status, solution, rational LP) of copy and source must be equal, and 20 probe operations plus destruction applied to either side must leave the other side's digest unchanged.",
             "Trusted: the digest is complete for what the statement lists. Crashes inside the copy phase are attributed to (copy kind, side, probe). Two genuine defect groups are in known_findings.json; the shared-Tolerances defect was fixed."),
+    "C16": ("fault_enumeration", "DESIGN.md section 3 C16",
+            "stop-point enumeration on the real solver under an interposed virtual clock: every iteration limit, the interrupt flag and a time-limit expiry at every clock read, time limit 0 and objective limits around the exact optimum, each followed by a resumed solve judged by the exact oracle",
+            "For about 5000 (thorough: 60000) canonical LPs spread over the 2x2 and sparse 3x3 families x 11 configurations (primal/dual x column/row x simplifier on/off, plus steepest-edge, bound flipping and textbook variants) one reference run records N iterations and C clock reads; then one run per stop point: ITERLIMIT=k for every k in 0..N+1, the interrupt flag raised from inside the clock at every clock read, the virtual clock jumping past TIMELIMIT at every clock read, TIMELIMIT=0, and eight objective limits at optimum +-0.5/+-1. Every stopped run must return the matching abort status or a verdict that is true by the exact oracle, respect the iteration limit, leave a valid basis if any; then the limit is lifted and optimize() must reach the exact status and optimum. A second phase does the same for exact (rational) solves.",
+            "Trusted: the virtual clock (libc times()/gettimeofday() defined in the harness executable - every SoPlex timer follows it), the exact oracle. ABORT_VALUE is rarely produced on LPs this small; the evidence shows the status histogram per stop kind."),
+    "C15": ("model_checking", "DESIGN.md section 3 C15",
+            "exhaustive enumeration of single parameter operations through three front ends over a per-parameter value menu, and of all operation histories up to a depth bound over set/save/load/reset/setSettings/copy for all parameter pairs, each replayed on a fresh object and compared with a parameter-table reference model",
+            "For all 82 parameters every value of a menu (bounds, default, 9- and 17-digit interior values, nearest representable values inside and outside each bound, -0.0, +-inf, NaN, +-DBL_MAX, INT_MIN/MAX, all integers of small ranges, OBJSENSE=0, build-restricted choices) through the typed setter, parseSettingsString and a one-line loadSettingsFile, from default and non-default states, with and without an LP loaded or solved, plus whitespace variants and about 25 kinds of malformed line per parameter; set -> save(0/1) -> reset -> load for every accepted value and for all parameters at once; all histories of depth <= 2 (thorough: 3) over {set with accepted and rejected values, save(onlyChanged 0/1), load, reset, setSettings from a second object, copy construction} for all 3321 parameter pairs and 3 initial states. After the last operation: return value, all 82 getters bit for bit, the component or tolerance actually in use, the saved file as parsed by the harness, atomicity of rejected calls, and the LP equal to the dense model with only sense and offset following the parameters.",
+            "Trusted: the parameter-table model and the published Settings tables as the documented range. Ten genuine defects are recorded in known_findings.json. Type-prefix and trailing-garbage leniency of the text front ends is counted, not flagged."),
 }
 
 NOT_YET = {}
